@@ -309,4 +309,60 @@ theorem resolution_stage {P : Script} {prog : Program} (hc : compile P = .ok pro
         obtain ⟨hc1, hc2⟩ := bent e he acct ha
         exact ⟨hc1, hc2 x h2' s hx⟩
 
+/-! ### end to end -/
+
+/-- `Execute` of the compiled program follows `evalStmts` from every machine that mirrors `Spec`'s state (what
+`execute_correct` proves for a fragment) -/
+def ExecOK (P : Script) (prog : Program) : Prop :=
+  ∀ (E : List (Acct × Asset)) (V : List BVal) (env : VEnv), Ctx prog.resources V env →
+    ∀ (A : List Acct), EntOK V prog.needed A E → ∀ (m : Machine) (F : Full), Rel A E m F →
+      match evalStmts env P.stmts F with
+      | .error er => VM.execute prog.instrs V m = .error er
+      | .ok F' => ∃ m', VM.execute prog.instrs V m = .ok m' ∧ Rel A E m' F'
+
+theorem prints_render (l : List Val) : (l.map BVal.ofVal).map (fun v => v.render.getD "") = l.map valToString := by
+  induction l with
+  | nil => rfl
+  | cons x xs ih => simp [render_ofVal, ih]
+
+/-- **end to end**: wherever `Execute` follows `evalStmts`, running the compiled program on the VM — resolution
+stage included — gives exactly the observations (or the error class) `Spec.run` gives, and never panics -/
+theorem run_eq_of_exec {P : Script} {prog : Program} (hc : compile P = .ok prog) (hex : ExecOK P prog)
+    (req : Request) (store : Store) :
+    (VM.run prog req store).map VM.Result.obs = Outcome.ofExcept ((Num.run P req store).map Result.obs) := by
+  have hrs := resolution_stage hc req store
+  unfold Num.run
+  cases hp : prepare P req store with
+  | error er =>
+    rw [hp] at hrs
+    simp only at hrs
+    rw [hrs]; rfl
+  | ok env =>
+    rw [hp] at hrs
+    simp only at hrs ⊢
+    cases hcb : checkBalanceVars env P.vars with
+    | error er =>
+      rw [hcb] at hrs
+      simp only at hrs
+      rw [hrs]; rfl
+    | ok u =>
+      rw [hcb] at hrs
+      obtain ⟨vars, R, V, B, hv, hr, hb, cx, hbal, hE, hok⟩ := hrs
+      have hrel : Rel B.accts B.keys ({ balances := B } : VM.Machine) { st := { bal := B.bal, postings := [] } } :=
+        ⟨rfl, rfl, rfl, rfl, rfl, rfl, rfl, hok⟩
+      have hx := hex _ V env cx _ hE _ _ hrel
+      simp only [← hbal]
+      simp only [VM.run, hv, hr, hb]
+      cases hev : evalStmts env P.stmts { st := { bal := B.bal, postings := [] } } with
+      | error er =>
+        rw [hev] at hx
+        simp only [hx]; rfl
+      | ok F =>
+        rw [hev] at hx
+        obtain ⟨m', hx, hr'⟩ := hx
+        simp only [hx, hr'.txMeta, hr'.acctMeta, renderTxMeta_map, renderAcctMeta_map]
+        split
+        · rfl
+        · simp only [Outcome.map, Except.map, Outcome.ofExcept, VM.Result.obs, Result.obs, hr'.postings, hr'.prints, prints_render]
+
 end Num
